@@ -1,5 +1,5 @@
 (* C16: every well-formed CFList of a request is carried into the join-accept byte for byte:
-   channel-mask CFLists (type 1, RFU octets zero) by induction over the mask decoder loop and a
+   channel-mask CFLists (type 1; six masks, RFU octets 12..14 ignored since /repo e2c2b92) by induction over the mask decoder loop and a
    65,536-case sweep of the ChMask codec; all other types in JoinServerProofs.cflist_channels_rt. *)
 From Coq Require Import List NArith ZArith Bool Lia.
 From Coq Require Import ZifyN ZifyNat ZifyBool.
@@ -76,35 +76,23 @@ Proof.
       * rewrite Z2, app_length. cbn [length]. lia.
 Qed.
 
-Lemma loop_zero_tail ps : forall fuel pending acc, (length ps + 1 < fuel)%nat ->
-  masks_loop (flat ps ++ [0; 0]) fuel pending acc = masks_loop (flat ps) fuel pending acc.
-Proof.
-  induction ps as [|[a b] ps IH]; intros fuel pending acc Hf.
-  - destruct fuel as [|[|f]]; try (cbn [length] in Hf; lia). cbn [flat map concat app masks_loop].
-    replace (existsb (fun x => x) (dec_chmask_list [0; 0])) with false by reflexivity. reflexivity.
-  - destruct fuel as [|f]; [cbn [length] in Hf; lia|].
-    change (flat ((a, b) :: ps) ++ [0; 0]) with (a :: b :: (flat ps ++ [0; 0])).
-    change (flat ((a, b) :: ps)) with (a :: b :: flat ps). cbn [masks_loop].
-    destruct (existsb _ _); apply IH; cbn [length] in Hf; lia.
-Qed.
-
 Lemma firstn_app_exact {A} (l r : list A) n : length l = n -> firstn n (l ++ r) = l.
 Proof. intros <-. rewrite firstn_app, Nat.sub_diag, firstn_all. cbn. apply app_nil_r. Qed.
 
-Lemma cflist_masks_rt c : length c = 16%nat -> bytes c -> nth 15 c 0 = 1 ->
-  nth 12 c 0 = 0 -> nth 13 c 0 = 0 -> nth 14 c 0 = 0 ->
-  exists l, cflist_unmarshal c = Ok l /\ cflist_marshal l = Ok c.
+(* (a) every 16-octet CFList of type 1 decodes - to at most six masks, whatever the three RFU octets
+   12..14 hold (since /repo e2c2b92 they are not read) - and re-encodes: the twelve mask octets come
+   back, the RFU octets as zero *)
+Lemma cflist_masks_decode c : length c = 16%nat -> bytes c -> nth 15 c 0 = 1 ->
+  exists l ms, cflist_unmarshal c = Ok l /\ cf_payload l = CFPMasks ms /\ (length ms <= 6)%nat /\
+               cflist_marshal l = Ok (firstn 12 c ++ [0; 0; 0; 1]).
 Proof.
-  intros Hl Hb Hty H12 H13 H14.
+  intros Hl Hb Hty.
   do 16 (destruct c as [|? c]; [discriminate Hl|]). destruct c; [|discriminate Hl].
-  cbn [nth] in Hty, H12, H13, H14. subst.
+  cbn [nth] in Hty. subst.
   unfold cflist_unmarshal. cbn [length Nat.eqb negb nth]. replace (1 =? 1) with true by reflexivity.
   cbn [firstn].
-  eexists. split; [reflexivity|].
-  unfold cflist_marshal. cbn [cf_payload cf_type cfpayload_marshal].
   set (ps := [(n, n0); (n1, n2); (n3, n4); (n5, n6); (n7, n8); (n9, n10)]).
-  change [n; n0; n1; n2; n3; n4; n5; n6; n7; n8; n9; n10; 0; 0] with (flat ps ++ [0; 0]).
-  rewrite loop_zero_tail by (cbn; lia).
+  change [n; n0; n1; n2; n3; n4; n5; n6; n7; n8; n9; n10] with (flat ps).
   assert (Bps : Forall (fun p => fst p < 256 /\ snd p < 256) ps).
   { repeat (apply bytes_inv in Hb; let H := fresh in destruct Hb as [H Hb]).
     unfold ps. repeat constructor; cbn [fst snd]; assumption. }
@@ -112,6 +100,8 @@ Proof.
   change (encs [] ++ repeat 0 (2 * length (@nil (list bool))) ++ flat ps) with (flat ps) in Z1.
   change (length (@nil (list bool)) + length (@nil (list bool)) + length ps)%nat with 6%nat in Z2.
   set (ms := masks_loop (flat ps) 8 [] []) in *.
+  eexists _, ms. split; [reflexivity|]. split; [reflexivity|]. split; [lia|].
+  unfold cflist_marshal. cbn [cf_payload cf_type cfpayload_marshal].
   replace (6 <? length ms)%nat with false by (symmetry; apply Nat.ltb_ge; lia).
   cbn [bind]. change (concat (map chmask_bytes ms)) with (encs ms).
   assert (E : encs ms ++ repeat 0 16 = flat ps ++ repeat 0 (16 - 2 * z)).
@@ -121,8 +111,21 @@ Proof.
   do 7 (destruct z as [|z]; [reflexivity|]). lia.
 Qed.
 
+(* (b) exact round trip when the RFU octets are zero *)
+Lemma cflist_masks_rt c : length c = 16%nat -> bytes c -> nth 15 c 0 = 1 ->
+  nth 12 c 0 = 0 -> nth 13 c 0 = 0 -> nth 14 c 0 = 0 ->
+  exists l, cflist_unmarshal c = Ok l /\ cflist_marshal l = Ok c.
+Proof.
+  intros Hl Hb Hty H12 H13 H14.
+  destruct (cflist_masks_decode c Hl Hb Hty) as (l & ms & U & _ & _ & M).
+  exists l. split; [exact U|]. rewrite M. f_equal.
+  do 16 (destruct c as [|? c]; [discriminate Hl|]). destruct c; [|discriminate Hl].
+  cbn [nth] in Hty, H12, H13, H14. subst. reflexivity.
+Qed.
+
 (* a CFList as a conformant network server sends it: 16 octets; for the channel-mask type the three
-   octets after the six masks are RFU = 0 (the seventh 16-bit slot and the RFU octet) *)
+   octets after the six masks are RFU = 0 (the decoder ignores them, the encoder writes zeros, so they
+   have to be zero for the join-accept to carry the requested octets unchanged) *)
 Definition cflist_wellformed (c : list N) : Prop :=
   length c = 16%nat /\ bytes c /\ (nth 15 c 0 = 1 -> nth 12 c 0 = 0 /\ nth 13 c 0 = 0 /\ nth 14 c 0 = 0).
 
